@@ -179,7 +179,9 @@ def run_order_gfa(
         final_csv = (
             outdir + os.sep + gfa_filename.split(os.sep)[-1].split(".")[0] + "-complete" + ".csv"
         )
-        with open(final_gfa, "w") as outfile:
+        # the complete files are assembled under a temporary name: a chromosome called "complete" has per-chromosome
+        # files with the very names of the final ones
+        with open(final_gfa + ".tmp", "w") as outfile:
             # outputting all the S lines first
             for f in out_gfa:
                 with open(f, "r") as infile:
@@ -194,14 +196,16 @@ def run_order_gfa(
                             outfile.write(l)
             for f in out_gfa:
                 os.remove(f)
+        os.replace(final_gfa + ".tmp", final_gfa)
 
-        with open(final_csv, "w") as outfile:
+        with open(final_csv + ".tmp", "w") as outfile:
             for f in out_csv:
                 with open(f, 'r') as infile:
                     for l in infile:
                         outfile.write(l)
             for f in out_csv:
                 os.remove(f)
+        os.replace(final_csv + ".tmp", final_csv)
 
 
     logger.info("Total bubbles: %d", total_bubbles)
